@@ -106,10 +106,11 @@ def walk(node):
     return ('node?', type(node).__name__)
 
 
-def parse_obs(text, names=None):
+def parse_obs(text, names=None, parser=None):
     try:
         with lib.time_limit():
-            tree = lib.xlparser.FormulaParser().parse(text, dict(names or {}))
+            tree = (parser or lib.xlparser.FormulaParser()).parse(
+                text, dict(names or {}))
             return repr(walk(tree))
     except lib.CaseTimeout:
         return 'timeout'
@@ -274,6 +275,13 @@ def family_items(name, tier):
     if name == 'three-tiny':
         return list(F.compose(3, F.TINY_LEAVES, ops=['^', '+', '&', '='],
                               funcs=('SUM',)))
+    if name == 'shared-parser':
+        leaves = [('ref', 'A1'), ('num', '2'), ('ref', 'B1'),
+                  ('ref', '$C$3'), ('num', '1.5')]
+        return list(F.chains(3, leaves)) + list(
+            F.calls(['SUM', 'IF'], F.TINY_LEAVES, 2)) + [
+            ('neg', ('bin', '^', ('ref', 'A1'), ('num', '2'))),
+            ('pct', ('ref', 'A1'))]
     if name == 'after-tokenize':
         return [('ref', 'A1:B2'), ('ref', '$A$1:$B$2'),
                 ('call', 'SUM', [('ref', 'A1:B2'), ('ref', 'Sheet2!A1:B2')]),
@@ -330,7 +338,7 @@ FAMILIES = {
     'leaf': 'exhaustive', 'one-full': 'few', 'calls-full': 'few',
     'calls-3': 'few', 'small-exh': 'exhaustive', 'two-reduced': 'few',
     'paren': 'few', 'strings': 'single', 'names': 'few', 'twins': 'single',
-    'chains': 'few', 'after-tokenize': 'few',
+    'chains': 'few', 'after-tokenize': 'few', 'shared-parser': 'single',
 }
 _ITEMS = {}
 
@@ -366,6 +374,21 @@ def run_shard(shard, ctx):
         for text in ('=SUM(A1:B2)', '=A1:B2', "='My Sheet'!A1:B2+1"):
             lib.observe(lib.xlparser.FormulaParser().tokenize, text, True)
             lib.observe(lib.xlparser.FormulaParser().parse, text, {}, True)
+    if name == 'shared-parser':
+        # ONE parser object for all the formulas of the shard, every tree
+        # dropped before the next formula is parsed, three rounds: the tree
+        # depends on the formula's text, not on what the parser parsed before
+        parser = lib.xlparser.FormulaParser()
+        for rnd in range(3):
+            for it in (its if rnd != 1 else its[::-1]):
+                text = F.render(F.tokens(it))
+                got = parse_obs(text, None, parser)
+                verdict(ctx, 'C02/shared-parser/%s/round=%d' % (
+                    tree_key(it), rnd), got, repr(F.canon(it)),
+                    sorted(F.features(it)) + ['history:parser-reused'],
+                    {'tree': it, 'variant': 'plain', 'text': text,
+                     'family': name, 'mode': mode}, True, 'tree')
+        return
     for it in its:
         if name == 'twins':
             gi, oi, trees = it
